@@ -218,6 +218,22 @@ def rule_B(run, prog):
 
 
 # ----------------------------------------------------------------------
+def _store_base(f, target):
+    """Attribute of self that a subscripted store writes: 'self.X[...]' directly, or through a
+    local name bound exactly once in the function to 'self.X'.  Returns X or None."""
+    base = target.value
+    if isinstance(base, ast.Attribute) and isinstance(base.value, ast.Name) and base.value.id == "self":
+        return base.attr
+    if isinstance(base, ast.Name):
+        binds = [n for n in walk_no_nested(f.node) if isinstance(n, ast.Assign)
+                 and any(isinstance(t_, ast.Name) and t_.id == base.id for t_ in n.targets)]
+        if len(binds) == 1:
+            v = binds[0].value
+            if isinstance(v, ast.Attribute) and isinstance(v.value, ast.Name) and v.value.id == "self":
+                return v.attr
+    return None
+
+
 def _mask_sites(prog):
     sites = [
         (LS + "relaxationtensor.RelaxationTensor.secularize", 2),
@@ -232,7 +248,7 @@ def _mask_sites(prog):
             if isinstance(st, ast.If):
                 stores = [x for x in st.body if isinstance(x, ast.Assign)
                           and isinstance(x.targets[0], ast.Subscript)
-                          and norm(x.targets[0].value) in ("self.data", "self._data")
+                          and _store_base(f, x.targets[0]) is not None
                           and isinstance(x.value, ast.Constant) and x.value.value == 0]
                 if stores and len(st.body) == 1 and not st.orelse:
                     found.append((st, stores[0]))
@@ -240,6 +256,18 @@ def _mask_sites(prog):
             raise AnalysisError("%s: expected %d secular mask site(s), found %d" % (qual, n, len(found)))
         for st, store in found:
             out.append((f, st, store))
+    return out
+
+
+def _managed_attrs(prog, cls):
+    """Attributes of cls that are basis-managed descriptors (class-level 'X = BasisManaged...("X")')."""
+    out = set()
+    for c in prog.mro(cls):
+        if c is None:
+            continue
+        for name, val in c.attrs.items():
+            if isinstance(val, ast.Call) and (norm(val.func).split(".")[-1]).startswith("BasisManaged"):
+                out.add(name)
     return out
 
 
@@ -304,7 +332,23 @@ def rule_C(run, prog):
             table[pat] = zeroed
             if zeroed == keep_expected:
                 bad.append(pat)
-        construct = "%s:mask@%s" % (f.short, norm(store.targets[0]))
+        attr = _store_base(f, store.targets[0])
+        construct = "%s:mask@self.%s[%s]" % (f.short, "data" if attr in ("data", "_data") else attr,
+                                            norm(store.targets[0].slice))
+        managed = _managed_attrs(prog, f.cls)
+        if not managed:
+            # a mixin: decide on the classes it is mixed into
+            subs = [c for m_ in prog.modules.values() for c in m_.classes.values()
+                    if c is not f.cls and f.cls in prog.mro(c)]
+            sets = [x for x in (_managed_attrs(prog, c) for c in subs) if x]
+            if not sets:
+                raise AnalysisError("%s: no class with basis-managed properties uses this mask" % f.qualname)
+            managed = set.intersection(*sets)
+        run.obligation(rid, construct, attr in managed, key="managed-access",
+                       message="the mask is written to self.%s, which is not a basis-managed property (%s): the "
+                               "raw storage is the representation in whatever basis the tensor was last used, so "
+                               "the zeroing is not applied in the current basis" % (attr, sorted(managed)),
+                       loc=f.loc(store), sample={"site": construct, "attribute": attr})
         run.obligation(rid, construct, not bad, key="mask",
                        message="secular mask deviates from 'zero everything except R[a,a,b,b] and "
                                "R[a,b,a,b]' on index patterns %s" % bad,
